@@ -52,6 +52,12 @@ func apHB(seq, sys, comp byte) []byte {
 	return sx.FrameOf(true, seq, sys, comp, &common.MessageHeartbeat{Type: 2, Autopilot: 3, SystemStatus: 4, MavlinkVersion: 3}, nil, 0, 0)
 }
 
+// truncPing is a PING whose v2 payload is zero-truncated (the decoder pads it again): every
+// channel decodes the same message type through the node's shared codec.
+func truncPing(seq, sys byte) []byte {
+	return sx.FrameOf(true, seq, sys, 1, &common.MessagePing{TimeUsec: 5, Seq: uint32(seq) + 1}, nil, 0, 0)
+}
+
 func sleepUntil(d time.Duration) {
 	vmc.AddWake(vmc.Epoch.Add(d), "scenario")
 	vmc.Await("until "+d.String(), func() bool { return vmc.NowNS() >= int64(d) })
@@ -76,8 +82,8 @@ func (e *exec) Body() {
 	var listener *vnet.FakeListener
 	switch p.Scen {
 	case "full":
-		a := &vnet.FakeConn{Name: "A", In: [][]byte{apHB(0, 1, 1), apHB(1, 1, 1)}}
-		b := &vnet.FakeConn{Name: "B", In: [][]byte{apHB(0, 2, 1)}}
+		a := &vnet.FakeConn{Name: "A", In: [][]byte{apHB(0, 1, 1), truncPing(1, 1), apHB(2, 1, 1)}}
+		b := &vnet.FakeConn{Name: "B", In: [][]byte{apHB(0, 2, 1), truncPing(1, 2)}}
 		conns = []*vnet.FakeConn{a, b}
 		listener = &vnet.FakeListener{Name: "lst"}
 		vnet.ListenHook = func(network, address string) (net.Listener, error) { return listener, nil }
@@ -156,6 +162,17 @@ func (e *exec) Body() {
 		n.WriteMessageAll(&common.MessageSysStatus{Load: 3}) //nolint
 		writersDone++
 	})
+	if p.Scen == "full" {
+		// a burst on both custom channels once both are open: the two readers decode the same
+		// message types (heartbeat, zero-truncated ping) through the node's shared codecs with
+		// nothing ordering them
+		vmc.GoApp("burst", func() {
+			vmc.AddWake(vmc.Epoch.Add(500*time.Millisecond), "burst")
+			vmc.Await("two channels open", func() bool { return len(e.chans) >= 2 || vmc.NowNS() >= int64(500*time.Millisecond) })
+			conns[0].Feed(append(apHB(3, 1, 1), truncPing(4, 1)...))
+			conns[1].Feed(append(apHB(2, 2, 1), truncPing(3, 2)...))
+		})
+	}
 	if listener != nil {
 		vmc.GoApp("peers", func() {
 			p1 := &vnet.FakeConn{Name: "peer1", In: [][]byte{apHB(0, 5, 1)}}
